@@ -15,6 +15,7 @@ pub type TApp =
     App<BankKeeper, MockApi, MockStorage, RecModule, WasmKeeper<CMsg, Empty>, StakeKeeper, DistributionKeeper, IbcFailingModule, GovFailingModule, StargateFailing>;
 
 pub fn new_app() -> TApp {
+    crate::contract::RAN_AT.with(|r| r.borrow_mut().clear());
     AppBuilder::new_custom().with_custom(RecModule).build(no_init)
 }
 
